@@ -22,7 +22,9 @@ def parseBytesArr (s : String) : Array UInt8 :=
 
 /-- `Symbols::append` keeps the first definition of a name -/
 def dedupe (syms : List (List UInt8 × Nat)) : List (List UInt8 × Nat) :=
-  syms.foldl (fun acc s => if acc.any (fun t => t.1 == s.1) then acc else acc ++ [s]) []
+  -- Symbols::append refuses a name that is already there and (reachable since read_elf's name[256], fix C03-14) one of
+  -- more than 254 characters
+  syms.foldl (fun acc s => if s.1.length + 1 > 255 ∨ acc.any (fun t => t.1 == s.1) then acc else acc ++ [s]) []
 
 def showSyms (syms : List (List UInt8 × Nat)) : String :=
   let l := dedupe syms.reverse
